@@ -421,7 +421,7 @@ def check_shapes(prop, tier):
     canonical x footer segment) and proves on the model that every entry point answers with a
     format/authentication error; every shape is replayed against all 24 entry points."""
     t0 = time.time()
-    res = verif.run_tlc("MC_Shapes.tla", "MC_Shapes.cfg", workers=8, timeout=3000)
+    res = verif.run_tlc("MC_Shapes.tla", "MC_Shapes.cfg" if tier == "quick" else "MC_Shapes_thorough.cfg", workers=8, timeout=3000)
     verif.require_model_ok(res, "MC_Shapes")
     shapes = verif.printed_records(res["out"], "SHAPE")
     hexc = verif.printed_records(res["out"], "HEX")
@@ -444,7 +444,7 @@ def check_shapes(prop, tier):
         "evaluations": s["evaluations"],
         "distinct_nontrivial": s["distinct"],
         "rule": "MC_Shapes: every (header in 8 protocols + wrong, segment count 0..6, decoded payload length 0..400, canonical / "
-                "non-canonical, footer segment none/matching/other) - %d shapes, NoPanic/NoOk proved on the model for all entry points; "
+                "non-canonical, footer segment none/matching/other; thorough: length 0..1000) - %d shapes, NoPanic/NoOk proved on the model for all entry points; "
                 "each shape instantiated with zero/0xff/random bytes and presented to 8 protocols x 3 layers x {no, matching} expected "
                 "footer under catch_unwind; plus every prefix of authentic tokens, random Unicode with 0..6 dots, runs of dots, 1 MiB "
                 "inputs; plus Key::<N>::try_from(hex) for N in {24,32,48,49,64} x every length 0..200 x {hex, non-hex} (%d cases); "
